@@ -277,6 +277,10 @@ class SSH_Socket(ReadBuf, WriteBuf):
             if check_size % self.__block_size != 0:
                 self.__outputbuffer.fail('[exception] invalid ssh packet (block size)').write()
                 sys.exit(exitcodes.CONNECTION_ERROR)
+            # The payload must at least hold the packet type (plus the 4-byte CRC in SSH1); otherwise the length fields are inconsistent (i.e.: the padding length exceeds the packet length) and a negative size would be read below.
+            if payload_length < (5 if sshv == 1 else 1):
+                self.__outputbuffer.fail('[exception] invalid ssh packet (length)').write()
+                sys.exit(exitcodes.CONNECTION_ERROR)
             self.ensure_read(payload_length)
             if sshv == 1:
                 payload = self.read(payload_length - 4)
